@@ -33,6 +33,8 @@ func (c *fsClient) BeforeInline(x *Exec, st *State, fr *Frame, site ssa.CallInst
 		g.setFlag("reloaded", tTrue)
 	case "(*Stack).reloadOnce":
 		g.setFlag("reloadOnceOK", nil)
+	case "(*Stack).readNames":
+		g.setFlag("listReadInCall", nil)
 	}
 }
 
@@ -44,6 +46,13 @@ func (c *fsClient) AfterInline(x *Exec, st *State, fr *Frame, site ssa.CallInstr
 			l := val.Args[0]
 			if l.isNilConst() {
 				l = tList(true, nil)
+			}
+			if !g.isSet("listReadInCall") {
+				// the names were not read from the file during this call (a cached
+				// copy): they say nothing about what other handles have committed
+				g.setFlag("lastNames", nil)
+				c.note(st, site.Pos(), "names returned without reading LIST in this call")
+				break
 			}
 			g.setFlag("lastNames", l)
 			g.setFlag("readAfterCommit", tTrue)
